@@ -220,10 +220,10 @@ Definition hist_advance (s : cstate) (fl : follower) : follower :=
       let peek' := scan_next (g_stream s) (o_ctx (fo fl)) (Some (c_id g)) in
       if limit_reached (o_limit (fo fl)) (f_count fl) then
         (* `return` inside the loop: no threshold, no hand-off; the live task sees the
-           closed done channel and exits *)
+           closed done channel and exits, and the heartbeat ends with the live task *)
         mkF (fo fl) (f_subscribed fl) (f_pos fl) (HFinished false) (Some (c_id g)) peek' (Some (c_id g))
             (f_count fl) (match f_l fl with LNone => LNone | _ => LExited end) (f_lcount fl)
-            (f_hb fl) (f_out fl) (f_got fl)
+            false (f_out fl) (f_got fl)
       else
         mkF (fo fl) (f_subscribed fl) (f_pos fl) (HAtSend g) (Some (c_id g)) peek' (Some (c_id g))
             (f_count fl) (f_l fl) (f_lcount fl) (f_hb fl) (f_out fl) (f_got fl)
@@ -244,6 +244,12 @@ Definition set_h (fl : follower) (h : hst) : follower :=
 Definition set_l (fl : follower) (l : lst) : follower :=
   mkF (fo fl) (f_subscribed fl) (f_pos fl) (f_h fl) (f_cursor fl) (f_peek fl) (f_last fl) (f_count fl)
       l (f_lcount fl) (f_hb fl) (f_out fl) (f_got fl).
+
+(* the live task ends; the heartbeat task ends with it (fix: stop the heartbeat when the
+   live task of a follow ends) *)
+Definition exit_live (fl : follower) : follower :=
+  mkF (fo fl) (f_subscribed fl) (f_pos fl) (f_h fl) (f_cursor fl) (f_peek fl) (f_last fl) (f_count fl)
+      LExited (f_lcount fl) false (f_out fl) (f_got fl).
 
 Definition lagged (s : cstate) (fl : follower) : bool :=
   Nat.ltb chan_cap (length (g_chan s) - f_pos fl).
@@ -291,9 +297,15 @@ Definition follower_step (s : cstate) (l : label) : option cstate :=
                 else Some (set_f s k (set_h (push fl IThreshold) HAtDone))
               else Some (set_f s k (set_h fl HAtDone))
           | HAtDone =>
-              (* hand-off (last_id, count); the live task now owns the count *)
-              Some (set_f s k (mkF (fo fl) (f_subscribed fl) (f_pos fl) (HFinished true) (f_cursor fl) (f_peek fl) (f_last fl)
-                                   (f_count fl) (f_l fl) (f_count fl) (f_hb fl) (f_out fl) (f_got fl)))
+              (* hand-off (last_id, count); the live task now owns the count; it ends at once
+                 when the history alone already delivered `limit` frames
+              (fix: end a limited follow when history alone satisfied the limit) *)
+              let fl1 := mkF (fo fl) (f_subscribed fl) (f_pos fl) (HFinished true) (f_cursor fl) (f_peek fl) (f_last fl)
+                             (f_count fl) (f_l fl) (f_count fl) (f_hb fl) (f_out fl) (f_got fl) in
+              Some (set_f s k (match f_l fl with
+                               | LWaiting => if limit_reached (o_limit (fo fl)) (f_count fl) then exit_live fl1 else fl1
+                               | _ => fl1
+                               end))
           | _ => None
           end
       | None => None
@@ -302,7 +314,7 @@ Definition follower_step (s : cstate) (l : label) : option cstate :=
       match nth_error (g_fs s) k with
       | Some fl =>
           let recv (fl : follower) : option cstate :=
-            if lagged s fl then Some (set_f s k (set_l fl LExited))
+            if lagged s fl then Some (set_f s k (exit_live fl))
             else match nth_error (g_chan s) (f_pos fl) with
                  | Some f =>
                      Some (set_f s k (mkF (fo fl) (f_subscribed fl) (S (f_pos fl)) (f_h fl) (f_cursor fl) (f_peek fl)
@@ -324,7 +336,8 @@ Definition follower_step (s : cstate) (l : label) : option cstate :=
               | Some n =>
                   let c := f_lcount fl + 1 in
                   Some (set_f s k (mkF (fo fl) (f_subscribed fl) (f_pos fl) (f_h fl) (f_cursor fl) (f_peek fl) (f_last fl)
-                                       (f_count fl) (if n <=? c then LExited else LRecvWait) c (f_hb fl)
+                                       (f_count fl) (if n <=? c then LExited else LRecvWait) c
+                                       (if n <=? c then false else f_hb fl)
                                        (f_out fl) (f_got fl)))
               | None => Some (set_f s k (set_l fl LRecvWait))
               end
